@@ -394,6 +394,25 @@ pub fn run(tier: &str, seed: u64) -> Report {
             }
         }
     }
+    // RFC 3339 puts no upper bound on the number of fraction digits (time-secfrac = "." 1*DIGIT): fractions of 10..=40 digits,
+    // incl. digit strings that overflow a u32 / u64 / u128 when read as ONE integer, all-nines, all-zeros and a long zero tail
+    {
+        let mut fracs: Vec<String> = vec![
+            "4294967295".into(), "4294967296".into(), "5000000000".into(), "9999999999".into(), "99999999999".into(), "0000000000".into(), "0000000001".into(), "1000000000".into(),
+            "18446744073709551615".into(), "18446744073709551616".into(), "99999999999999999999".into(), "340282366920938463463374607431768211456".into(),
+            "1234567890123456789012345678901234567890".into(), "123456789000000000000000000000".into(), "000000000000000000000000000001".into(),
+        ];
+        for n in 10..=40usize {
+            fracs.push((0..n).map(|_| char::from(b'0' + rng.below(10) as u8)).collect());
+            fracs.push("9".repeat(n));
+        }
+        for (fi, f) in fracs.iter().enumerate() {
+            for (ti, head) in ["2019-01-01T00:00:00", "2999-12-31T23:59:59", "0000-01-01T00:00:00", "1969-12-31T23:59:59", "2024-02-29T12:30:45"].iter().enumerate() {
+                let tail = ["Z", "+00:00", "-08:00", "+14:00", "-00:00"][(fi + ti) % 5];
+                cases.push(Case::Time { ctor: ((fi + ti) % 3) as u8, owned: (fi + ti) % 2 == 0, text: format!("{}.{}{}", head, f, tail), expect_ok: Some(true), class: "rfc3339-strict-long-fraction".into() });
+            }
+        }
+    }
     // the fixed catalogue goes to all three constructors in both forms; random strings are spread over them
     let fixed = 36.min(nondates.len());
     for s in nondates.iter().take(fixed) {
@@ -451,4 +470,4 @@ pub fn replay(case: &Value) -> Report {
     r
 }
 
-pub const RULE: &str = "CustomClaim::try_from: ALL strings of length 0..=4 over the 13 letters of the reserved keys plus 'E', space and NUL (69 905 keys) x the three constructor forms (&str, (&str,T), (String,T)); ALL strings of length 1..3 (thorough 4) over those 13 letters plus 19 separator / quote characters (, ; | : . space TAB LF / - _ quotes brackets braces: what a joined or packed representation of the reserved list contains); ALL 18 278 lower-case ASCII strings of length 1..3; a dictionary of 75 names from neighbouring specifications (kid, wpk, typ, nonce, scope, email ...) x fourteen forms; ~50 decorated variants (case, whitespace, NUL, zero-width, homoglyphs, reversed, truncated, extended, and three-character look-alikes under narrowing to 7/8/16 bits or under (a<<16|b<<8|c) bit-packing) of each of the seven keys x fourteen forms/value types (incl. u128/i128 beyond 64 bits, alone and inside Option/Vec, f32, unit, char, tuple); 20 000 (thorough 2 000 000) random Unicode keys; oracle: fails with the reserved-key error iff the key is literally one of the seven, otherwise succeeds keeping key and value. Time constructors (ExpirationClaim, NotBeforeClaim, IssuedAtClaim x &str/String): 19 instants (incl. 0000-01-01, 0001-01-01, 1969, 9999-12-31T23:59:59) x UTC offsets -23:59..+23:59 (every 7th plus the extremes; thorough: all) x 0..9 fractional digits, 'Z' and '-00:00' forms and leap seconds (seconds field 60, the examples of RFC 3339 section 5.8) must be accepted and kept verbatim; strings in the RFC 3339 layout with a month or day outside 01-12 / 01-31 must be refused (also read back through a built token); strings outside a deliberately broad recogniser of ISO 8601 date prefixes (optional sign + >= 4 digits) must be refused — incl. long ones whose multi-byte characters straddle every byte offset up to 130, and a panic is not a refusal; lenient renderings and possibly-date strings are recorded without verdict. distinct_nontrivial = distinct (class, form/constructor, key or text shape) tuples";
+pub const RULE: &str = "CustomClaim::try_from: ALL strings of length 0..=4 over the 13 letters of the reserved keys plus 'E', space and NUL (69 905 keys) x the three constructor forms (&str, (&str,T), (String,T)); ALL strings of length 1..3 (thorough 4) over those 13 letters plus 19 separator / quote characters (, ; | : . space TAB LF / - _ quotes brackets braces: what a joined or packed representation of the reserved list contains); ALL 18 278 lower-case ASCII strings of length 1..3; a dictionary of 75 names from neighbouring specifications (kid, wpk, typ, nonce, scope, email ...) x fourteen forms; ~50 decorated variants (case, whitespace, NUL, zero-width, homoglyphs, reversed, truncated, extended, and three-character look-alikes under narrowing to 7/8/16 bits or under (a<<16|b<<8|c) bit-packing) of each of the seven keys x fourteen forms/value types (incl. u128/i128 beyond 64 bits, alone and inside Option/Vec, f32, unit, char, tuple); 20 000 (thorough 2 000 000) random Unicode keys; oracle: fails with the reserved-key error iff the key is literally one of the seven, otherwise succeeds keeping key and value. Time constructors (ExpirationClaim, NotBeforeClaim, IssuedAtClaim x &str/String): 19 instants (incl. 0000-01-01, 0001-01-01, 1969, 9999-12-31T23:59:59) x UTC offsets -23:59..+23:59 (every 7th plus the extremes; thorough: all) x 0..9 fractional digits, 'Z' and '-00:00' forms and leap seconds (seconds field 60, the examples of RFC 3339 section 5.8) must be accepted and kept verbatim, and so must fractions of 10..40 digits (RFC 3339 sets no upper bound; incl. digit strings beyond u32/u64/u128 when read as one integer); strings in the RFC 3339 layout with a month or day outside 01-12 / 01-31 must be refused (also read back through a built token); strings outside a deliberately broad recogniser of ISO 8601 date prefixes (optional sign + >= 4 digits) must be refused — incl. long ones whose multi-byte characters straddle every byte offset up to 130, and a panic is not a refusal; lenient renderings and possibly-date strings are recorded without verdict. distinct_nontrivial = distinct (class, form/constructor, key or text shape) tuples";
